@@ -461,13 +461,13 @@ var fmtLabels = map[string]string{}
 
 // fmtLabel is the format as it appears in a tag: quoted when short, a description when it belongs to the family
 func fmtLabel(f string) string {
+	if len(f) <= 40 {
+		return fmt.Sprintf("%q", f)
+	}
 	if l, ok := fmtLabels[f]; ok {
 		return l
 	}
-	if len(f) > 40 {
-		return fmt.Sprintf("long(%d bytes)", len(f))
-	}
-	return fmt.Sprintf("%q", f)
+	return fmt.Sprintf("long(%d bytes)", len(f))
 }
 
 type lenFmt struct {
